@@ -14,17 +14,22 @@ def register(PROPS):
                  'The domain is finite and enumerated completely in both tiers; the same cases are run a second time under ASan+bounds.  '
                  'History independence (mode interleave): for every ordered pair of different scales (s1, s2), every Gregorian day z of 1901-2099 and every '
                  'distance dz in {0, 1, -1, 40, -400} the calls g(z) -> s1, g(z+dz) -> s2, image -> Gregorian are made back to back and must give what the '
-                 'scale-by-scale pass gave for the same arguments (a conversion must not depend on which conversion preceded it).',
+                 'scale-by-scale pass gave for the same arguments (a conversion must not depend on which conversion preceded it).  '
+                 'The scales as the recurrence stream uses them (mode stream): for each of the 11 scale names the parser accepts (HIJRI, HIJRI.UMMULQURA, HIJRI.DIYANET, HIJRI.IA .. HIJRI.IVC) '
+                 'and 10 Gregorian DTSTARTs 1940-2070 the events RRULE:FREQ=DAILY;SCALE=x;COUNT=200, FREQ=MONTHLY;SCALE=x;COUNT=150 and FREQ=YEARLY;SCALE=x;COUNT=70 are read back '
+                 '(text -> parser -> stream, output in Gregorian; each needs several fills of the stream\'s 63-slot cache): the daily one must be 200 consecutive Gregorian days, the monthly (yearly) one '
+                 'must keep the Hijri day of month (and month) of DTSTART and advance by exactly one Hijri month (year) -- further only over dates the scale does not have --, all strictly increasing, '
+                 'and a stream may end before COUNT only where the table of a table calendar ends.',
         'note': 'The Hijri side has no external reference: the property is internal consistency.  Whether the calendars agree with published tables is not judged '
                 '(a 28-day month in the Umm al-Qura table, Sha\'ban 1364, is counted under months_reported_not_29_or_30_days, not reported).  '
                 'The last month listed in a table (its length is unknown) is not judged in either direction.',
         'rule': 'a case is one (scale, year): mode g2h = every day of one Gregorian year, mode h2g = every date of one Hijri year, mode edge = '
-                'echs_scale_ndim on the 12 months of one Hijri year 1300-1560 of a table calendar, mode interleave = all 90 ordered scale pairs over one Gregorian year; evaluations count single dates/calls; '
+                'echs_scale_ndim on the 12 months of one Hijri year 1300-1560 of a table calendar, mode interleave = all 90 ordered scale pairs over one Gregorian year, mode stream = one (rule, DTSTART, scale name) event; evaluations count single dates/calls resp. occurrences read; '
                 'cases are distinct by construction; non-trivial = at least one date of the year lies inside the calendar (g2h, h2g) resp. at least one '
-                'month of the year lies outside the table (edge); the sanitizer passes repeat the same cases and are not counted again',
+                'month of the year lies outside the table (edge) resp. the event delivered all COUNT occurrences (stream); the sanitizer passes repeat the same cases and are not counted again',
         'bound': {
             'quick': 'complete: 10 scales x 72 683 Gregorian days (1901-2099) forward and back; 10 scales x every date of AH 1319-1522 back and forth; '
-                     'month-length calls for AH 1300-1560 on both table calendars; all of it again under ASan',
+                     'month-length calls for AH 1300-1560 on both table calendars; 330 recurring events (3 rules x 10 DTSTARTs x 11 scale names) read back through the stream; all of it again under ASan',
             'thorough': 'same as quick (the domain is finite and already complete)',
         },
         'drivers': [
@@ -35,6 +40,8 @@ def register(PROPS):
             D('c15_scale', ['mode=interleave', 'nocount=1', 'y0=2015', 'y1=2030'], ['mode=interleave', 'nocount=1'], label='interleave-asan', variant='asan', shards=16),
             D('c15_scale', ['mode=g2h', 'nocount=1'], label='g2h-asan', variant='asan', shards=4),
             D('c15_scale', ['mode=h2g', 'nocount=1'], label='h2g-asan', variant='asan', shards=4),
+            D('c15_scale', ['mode=stream'], label='stream', shards=4),
+            D('c15_scale', ['mode=stream', 'nocount=1'], label='stream-asan', variant='asan', shards=4),
         ],
         'assumptions': [
             'Gregorian day numbers and weekdays come from harness/ref/civil_c15.h (days-from-civil), self-tested over 1600-2400 at start-up',
@@ -44,5 +51,8 @@ def register(PROPS):
             'the last listed month and the 30 days from its first are left out of the oracle in both directions',
             'a Hijri date is enumerated only up to the month length the code itself reports; whether that length is 29 or 30 is not judged',
             'only all-day instants are converted; the time part must come through unchanged',
+            'mode stream: Hijri dates of the occurrences are obtained with echs_instant_rescale (judged by g2h/h2g); a MONTHLY/YEARLY event whose DTSTART falls on a Hijri day 30 is not judged '
+            '(whether months without a 30th are skipped, as the Gregorian rules do, or get their last day, as the Hijri rules do, is rule expansion, not scale conversion); '
+            'events whose DTSTART lies outside a table calendar are not judged',
         ],
     }
